@@ -29,8 +29,9 @@ struct C06Options
 {
     bool allowIds = false; // give library components XML ids (flattening one twice duplicates them)
     int maxOps = 5;
+    unsigned keptChildrenPct = 8; // how often children of a cut root may stay in the importing model, below the import element
     bool libsParsed = false; // the library models will be parsed from files (import elements then have no variables of their own)
-    unsigned chainGapPct = 4; // how often an intermediate import element of a chain is left without placeholder variables
+    unsigned chainGapPct = 4; // how often the shapes of known findings are NOT excluded by construction
 };
 
 struct C06Forest
@@ -46,6 +47,12 @@ struct C06Forest
     bool nontrivial = false;
     bool usesSubdir = false;
     bool chainGap = false; // an import element refers to an import element that lacks one of its placeholder variables
+    bool importerChildren = false; // an import element has children in the model that holds it
+    bool unitsDependencyKnownElsewhere = false; // a library units refers to units whose definition another model has under another name
+    bool libraryAliasNamedLikeOtherUnits = false; // a library units X equals another model's units Y while the library has its own, different Y
+    bool unitsDependencyIsImport = false; // a library units refers to units that the library imports
+    bool libraryImportElementWithPlaceholders = false; // an import element inside a library model has (placeholder) variables
+    bool importerChildrenUseImportedUnits = false; // components below an import element use units their model imports
 
     std::string describe() const;
     std::string dirOf(size_t model) const; // "" or "sub/"
